@@ -5,6 +5,7 @@ disagrees with it an extra `P model-disagrees-with-spec` line is printed. -/
 import TboxModel.Util
 import TboxModel.C19.Model
 import TboxModel.C19.Spec
+import TboxModel.C19.Long
 open Tbox.Util Tbox.C19
 
 structure DSt where
@@ -190,11 +191,149 @@ def b64Tag (s : List UInt8) (cap : Nat) : String :=
     else if cap = dl then " b64-cap-exact" else if cap < dl then " b64-cap-short" else " b64-cap-roomy"
   s!"b64-pads{min pads 3}{hi}{inv}{midpad}{capt}"
 
+
+/-! ### round 9: long inputs in compact form (`rep:<hex>:<n>` / `prng:<seed>:<n>`, expanded the same way by the harness) -/
+
+def seg? (w : String) : Option Long.Seg :=
+  match w.splitOn ":" with
+  | ["rep", h, n] => do
+      let p ← bytesOfHex h; let k ← n.toNat?
+      if p.isEmpty ∨ toString k ≠ n then none else some (.rep p k)
+  | ["prng", sd, n] => do
+      let s ← sd.toNat?; let k ← n.toNat?
+      if s ≥ 2 ^ 32 ∨ toString k ≠ n ∨ toString s ≠ sd then none else some (.prng (UInt32.ofNat s) k)
+  | _ => none
+
+def cuts? (w : String) (total : Nat) : Option (List Nat) :=
+  if w = "-" then some [] else do
+    let cs ← (w.splitOn ",").mapM (fun t => do let n ← t.toNat?; if toString n = t then some n else none)
+    let rec asc : Nat → List Nat → Bool
+      | _, [] => true
+      | lo, c :: r => lo ≤ c && c ≤ total && asc c r
+    if asc 0 cs then some cs else none
+
+/-- the pieces of `a` between consecutive cut positions -/
+def piecesAt (a : Array UInt8) (cuts : List Nat) : List (List UInt8) :=
+  let rec go : Nat → List Nat → List (List UInt8)
+    | lo, [] => [(a.extract lo a.size).toList]
+    | lo, c :: r => (a.extract lo c).toList :: go c r
+  go 0 cuts
+
+def lenBucket (n : Nat) : String :=
+  if n ≥ 2 ^ 24 then "2^24" else if n ≥ 2 ^ 20 then "2^20" else if n > 131074 then "over-128k" else if n ≥ 65536 then "64k-128k" else "short"
+
+/-- one `long` operation on the expanded input; `none` = bad-op -/
+def runLong (kind : String) (params : List String) (a : Array UInt8) (ref : Option String) : Option (List String) :=
+  let n := a.size
+  let small := n ≤ 2 ^ 20 + 64
+  match kind, params with
+  | "sum8", [] => some [s!"P long.sum8 {Long.sum8A a}"]
+  | "sum16", [] => some [s!"B sum16-{if n % 2 = 0 then "even" else "odd"}", s!"P long.sum16 {Long.sum16A a}"]
+  | "crc16", [seed] => do
+      let s ← seed.toNat?; if s ≥ 65536 then none else
+      pure [s!"P long.crc16 {Long.crc16A a (UInt16.ofNat s)}"]
+  | "crc32", [seed] => do
+      let s ← seed.toNat?; if s ≥ 2 ^ 32 then none else
+      let v := Long.crc32A a (UInt32.ofNat s)
+      pure [withRef ref (toString v) s!"P long.crc32 {v}"]
+  | "crc32.chain", [seed, cut] => do
+      let s ← seed.toNat?; let c ← cut.toNat?; if s ≥ 2 ^ 32 ∨ c > n then none else
+      let sd := UInt32.ofNat s
+      pure [s!"B crc-chain-3-3", s!"P long.crc32.chain whole={Long.crc32A a sd} chained={Long.crc32A (a.extract c n) (~~~ (Long.crc32A (a.extract 0 c) sd))}"]
+  | "crc16.chain", [seed, cut] => do
+      let s ← seed.toNat?; let c ← cut.toNat?; if s ≥ 65536 ∨ c > n then none else
+      let sd := UInt16.ofNat s
+      pure [s!"B crc-chain-3-3", s!"P long.crc16.chain whole={Long.crc16A a sd} chained={Long.crc16A (a.extract c n) (Long.crc16A (a.extract 0 c) sd)}"]
+  | "md5", [cuts] => do
+      let cs ← cuts? cuts n
+      if n ≤ 140000 then
+        let ps := piecesAt a cs
+        let whole := Spec.md5 a.toList
+        let spec := Md5.digestSplit Spec.md5Params ps
+        let m := Md5.digestSplit Md5.gen ps
+        pure ([s!"B md5-pieces{min ps.length 9} md5-long-model", withRef ref (hexOfBytes whole) s!"P long.md5 {hexOfBytes whole}"]
+              ++ (if spec = whole then [] else ["P md5-split-differs-from-oneshot " ++ hexOfBytes spec])
+              ++ (if m = spec then [] else ["P model-disagrees-with-spec md5 " ++ hexOfBytes m]))
+      else do
+        -- too long for the list model: the expected digest is the external reference of the op line (python hashlib); by
+        -- C19_md5_split it does not depend on the cuts
+        let r ← ref
+        pure [s!"B md5-pieces{min (cs.length + 1) 9} md5-long-ref-only", s!"P long.md5 {r} ref=ok"]
+  | "b64", [] =>
+      if ¬ small ∨ n = 0 then none else
+      let e := Long.b64EncChunked a.toList          -- = the encoder (C19_b64_chunked_refines)
+      -- decode: by C19_b64_roundtrip the decoder returns the input for every capacity ≥ n and 0 below
+      some [s!"B b64-rt-mod{n % 3}", s!"P long.b64 enclen={e.length} encfnv={Long.fnvL e} declen={n} dec={n} same=1 short=0"]
+  | "b64bad", [pos] => do
+      let p ← pos.toNat?
+      if ¬ small ∨ n = 0 ∨ p ≥ (4 * n + 2) / 3 then none else      -- inside the non-padding characters
+      -- a character outside the alphabet anywhere in the text: refused with 0 (C19_b64_rejects)
+      pure ["B b64-invalid-char", "P long.b64bad ret=0 vec=0"]
+  | "hexdec", [] =>
+      if ¬ small then none else
+      -- C19_hex_roundtrip (vector reader) / C19_hex_roundtrip_buf (buffer reader, cap ≥ n)
+      some (["B hex-decvec-nodelim-ok", s!"P long.hexdec exc=- len={n} fnv={Long.fnvA a}"]
+            ++ (if 0 < n ∧ n ≤ 65535 then [s!"P long.hexdec buf ret={n} same=1"] else []))
+  | "hexenc", [u] => do
+      let up ← bool01? u
+      if n > 65535 then none else
+      let e := Hex.rawToHex up [] a.toList
+      pure [s!"P long.hexenc len={e.length} fnv={Long.fnvL e}"]
+  | "url", [m] => do
+      let pm ← bool01? m
+      if ¬ small then none else
+      let e := Url.encode pm a.toList
+      pure [s!"P long.url enclen={e.length} encfnv={Long.fnvL e} same=1"]      -- decode: C19_url_roundtrip
+  | "ser", [e] => do
+      let en ← endian? e
+      if ¬ small then none else
+      match (Ser.S.newVec [] en).appendRaw a.toList with
+      | .ok (r1, s1) =>
+        match s1.appendInt 4 0x01020304 with
+        | .ok (r2, s2) =>
+          let d := Ser.D.new s2.mem en
+          match d.fetchRaw n with
+          | .ok (some v, d1) =>
+            match d1.fetchInt 4 with
+            | .ok (some x, d2) =>
+              pure [s!"B ser-int4-vec", s!"P long.ser ret={if r1 then 1 else 0}{if r2 then 1 else 0} pos={s2.pos} fnv={Long.fnvL s2.mem} back={if v = a.toList then 1 else 0} int={x} dpos={d2.pos}"]
+            | _ => pure ["P long.ser MODEL-FAILS"]
+          | _ => pure ["P long.ser MODEL-FAILS"]
+        | _ => pure ["P long.ser MODEL-FAILS"]
+      | _ => pure ["P long.ser MODEL-FAILS"]
+  | "serraw", [e, slack] => do
+      let en ← endian? e; let k ← slack.toNat?
+      if ¬ small ∨ k > 8 then none else
+      match (Ser.S.newRaw (n + k) en).appendRaw a.toList with
+      | .ok (r1, s1) =>
+        match s1.appendInt 4 0x01020304 with
+        | .ok (r2, s2) =>
+          match s2.appendRaw a.toList with
+          | .ok (r3, s3) =>
+            pure [s!"B ser-int4-raw", s!"P long.serraw ret={if r1 then 1 else 0}{if r2 then 1 else 0}{if r3 then 1 else 0} pos={s3.pos} fnv={Long.fnvL s3.mem}"]
+          | .oob w => pure [s!"P long.serraw OOB {w}"]
+          | _ => pure ["P long.serraw ?"]
+        | .oob w => pure [s!"P long.serraw OOB {w}"]
+        | _ => pure ["P long.serraw ?"]
+      | .oob w => pure [s!"P long.serraw OOB {w}"]
+      | _ => pure ["P long.serraw ?"]
+  | _, _ => none
+
 /-- one operation: returns new state and output lines -/
 def runOp (st : DSt) (ws00 : List String) : Option (DSt × List String) := do
   let ws0 ← splitPlace ws00
   let (ws, ref) := splitRef ws0
   match ws with
+  | "long" :: kind :: rest => do
+      let params := rest.filter (fun w => !w.contains ':')
+      let segws := rest.filter (fun w => w.contains ':')
+      if segws.isEmpty ∨ rest ≠ params ++ segws then none else
+      let segs ← segws.mapM seg?
+      let total := segs.foldl (fun n s => n + s.size) 0
+      if total > 2 ^ 24 + 64 then none else
+      let a := Long.expand segs
+      let lines ← runLong kind params a ref
+      pure (st, [s!"B long-{kind} long-len-{lenBucket total}", s!"M long.in len={a.size} fnv={Long.fnvA a}"] ++ lines)
   | ["b64.declenz", h] => do
       let s ← bytesOfHex h
       pure (st, [s!"B b64-cstr{if s.contains 0 then "-nul" else ""}", s!"P b64.declenz {B64.decodeLengthZ s}"])
@@ -566,6 +705,11 @@ def runOp (st : DSt) (ws00 : List String) : Option (DSt × List String) := do
       let k ← block16? k; let b ← block16? b
       let spec := Spec.aesInvCipher k b; let m := Aes.invCipher Aes.gen k b
       pure (st, [withRef ref (hexOfBytes spec) s!"P aes.dec {hexOfBytes spec}"] ++ (if m = spec then [] else ["P model-disagrees-with-spec aes.dec " ++ hexOfBytes m]))
+  -- AES(nullptr) used before the first setKey: the ciphertext is unspecified (uninitialised round keys) and not printed; for EVERY
+  -- content of w, invcipher undoes cipher on that object (C19_aes_unkeyed_roundtrip)
+  | ["aes.unkeyed", b] => do
+      let _ ← block16? b
+      pure (st, ["B aes-unkeyed", "P aes.unkeyed rt=1"])
   | ["aes.rt", k, b] => do
       let k ← block16? k; let b ← block16? b
       let good := Spec.aesInvCipher k (Spec.aesCipher k b) = b
